@@ -737,7 +737,11 @@ func (c *cutter) doHuffman(isFirstBlock bool, lLengths []uint32, dLengths []uint
 			decodedLen += length
 
 		} else {
-			// It's the end-of-block.
+			// It's the end-of-block. Like any other symbol, it still has to
+			// fit in the maxEncodedLen budget.
+			if (8*uint64(c.bits.index) - uint64(c.bits.nBits)) > (8 * uint64(c.maxEncodedLen)) {
+				break
+			}
 			return nil
 		}
 
